@@ -263,6 +263,14 @@ mod scalar {
     use ::glam_scalar as glam;
     include!("suite.rs");
 }
+/// the same algebra with `glam-assert` compiled in: the Hamilton product, conjugate and the 4-vector operations are stated
+/// for every finite quaternion, so none of them may start rejecting (panicking on) non-unit operands there
+#[cfg(not(feature = "core"))]
+mod asserting {
+    pub const VARIANT: &str = "simd+glam-assert";
+    use ::glam_assert as glam;
+    include!("suite.rs");
+}
 #[cfg(feature = "core")]
 mod core_simd {
     pub const VARIANT: &str = "core";
@@ -277,6 +285,7 @@ fn main() {
     {
         subs.extend(simd::subs(&args));
         subs.extend(scalar::subs(&args));
+        subs.extend(asserting::subs(&args).into_iter().filter(|s| s.name.starts_with("hamilton-int/") || s.name.starts_with("hamilton-real/")));
     }
     #[cfg(feature = "core")]
     {
